@@ -26,6 +26,8 @@ def run(ctx):
     R.absent_data(ctx, "C04.4")
     R.digest_pairing(ctx, "C04.5")
     R.exhaustion_guard(ctx, "C04.6")
+    from .conservation import zero_fill_conservation
+    zero_fill_conservation(ctx, "C04.7")
 
 
 MUTANTS = MUT_C04
